@@ -597,6 +597,8 @@ def variant_source(v):
         body.append("    " + field_source(f)[0])
     if opt:
         body.append(f"    _optional = {opt!r}")
+    if v.get("required") is not None:
+        body.append(f"    _required = {list(v['required'])!r}")
     body = "\n".join(body)
     head = "from __future__ import annotations\n" if v["future"] else ""
     if scope == "module":
@@ -651,19 +653,12 @@ def features(v, f, ann_len):
         if (n["s"] in ("optional", "union") or plain_pipe) and any(union_like(n[k]) for k in ("x", "y") if k in n):
             out.append("typing-union-flattened")
         # `Array[Owner | None]`, `AnyOf[Owner | int, X]`: a Structure-first PEP 604 union as argument of a typedpy field
-        if n["s"] in ("sub", "mapSub", "anyOf", "tupSub") and any(struct_first_pipe(n[k]) for k in ("x", "y") if k in n):
-            out.append("pep604-structure-first-nested")
+        # (was the finding pep604-structure-first-nested, fixed in typedpy: no longer a known divergence)
         # `Tuple(items=Owner)` / `Tuple(items=[X, Owner])`: Tuple.__init__ converts Field classes only
-        if (n["s"] == "call" and n["c"] == "tuple" and n["x"]["s"] == "scls") or \
-                (n["s"] == "tupCall" and "scls" in (n["x"]["s"], n["y"]["s"])):
-            out.append("tuple-items-structure-class")
+        # (was the finding tuple-items-structure-class, fixed in typedpy: no longer a known divergence)
     d = f.get("dflt")
     if d and d["how"] == "kw" and not _truthy(d["v"]):
         out.append("falsy-default-kw")
-    if f["mode"] == "ann" and f.get("quoted") and v["future"]:
-        out.append("quoted-under-future-import")        # stored as the text of a string literal: evaluates to a str
-    elif f["mode"] == "ann" and f.get("quoted") and ann_len >= 50:
-        out.append("quoted-annotation-50")              # the 50-character guard (modules without the future import)
     if f.get("unresolved") and v.get("scope") == "enclosing":
         out.append("string-annotation-enclosing-scope")  # names of an enclosing function are not visible to eval
     res = []
@@ -863,6 +858,26 @@ def gen_case(rng, tier, ci, meanings=None, extra_tys=None, cap=None, defaults=No
                 if not f.get("inOptional") and not (f.get("dflt") and f["dflt"]["v"] is not None)]
     cls = {"k": "struct", "name": "K", "required": sorted(required), "addl": True,
            "fields": [[nm, d] for nm, d in zip(names, decls)]}
+    # `_required` written out: exactly the names that are required anyway (then `_optional` entries of fields that are not
+    # optional by annotation are redundant and may be dropped), in any order, possibly also naming a defaulted field
+    for var in variants[1:]:
+        if var.get("scope") == "enclosing" or rng.random() >= 0.12 or any(f.get("quoted") for f in var["fields"]):
+            continue       # (not combined with the known string-annotation findings: a dropped field stays "required")
+        if any(f["name"] in required and (f.get("inOptional") or auto_optional(f["mode"], f["ty"])) for f in var["fields"]):
+            continue       # (a required-none flavour field spelled optional: typedpy refuses the combination)
+        req = list(required) + [f["name"] for f in var["fields"] if f.get("dflt") and f["dflt"]["v"] is not None
+                                and rng.random() < 0.3]
+        rng.shuffle(req)
+        var["required"] = req
+        opt_names = [f["name"] for f in var["fields"] if not (f.get("dflt") and f["dflt"]["v"] is not None)
+                     and (f.get("inOptional") or auto_optional(f["mode"], f["ty"]))]
+        if opt_names and rng.random() < 0.3:
+            # a name that is optional AND listed in `_required`: typedpy refuses the class ("optional cannot override prior
+            # required"); not an equivalent spelling of the reference - corresponded with the model only
+            var["required"] = req + [rng.choice(opt_names)]
+            var["undocumented"] = True
+        elif rng.random() < 0.6:
+            var["fields"] = [{k: x for k, x in f.items() if k != "inOptional"} for f in var["fields"]]
     kws = []
     for _ in range(3):
         kw = vg.valid_kw(cls)
@@ -1550,7 +1565,8 @@ def line(case, impl):
     if case.get("oracle_only"):
         return None
     return {"suite": "elab", "re": case.get("re", []),
-            "variants": [{"future": v["future"], "scope": v.get("scope", "module"), "fields": v["fields"]}
+            "variants": [dict({"future": v["future"], "scope": v.get("scope", "module"), "fields": v["fields"]},
+                              **({"required": v["required"]} if v.get("required") is not None else {}))
                          for v in case["variants"]]}
 
 
@@ -1600,8 +1616,8 @@ def correspondence(case, impl, model):
         if "err" in mcls:
             if "def_err" not in iv:
                 return f"{where}: model raises {mcls['err']} at class definition, real code defines the class"
-            if iv["def_err"] not in ferrs:
-                return f"{where}: class definition raises {iv['def_err']} ({iv.get('msg')}), model {ferrs}"
+            if iv["def_err"] not in (ferrs or [mcls["err"]]):     # (no field at fault: a class-level error, `_required`)
+                return f"{where}: class definition raises {iv['def_err']} ({iv.get('msg')}), model {ferrs or mcls['err']}"
             continue
         if "def_err" in iv:
             return f"{where}: real code raises {iv['def_err']} at class definition ({iv.get('msg')}), model defines the class"
@@ -1624,14 +1640,12 @@ def field_features(case, model, i):
     return out
 
 
-PRIORITY = ["quoted-under-future-import", "quoted-annotation-50", "string-annotation-enclosing-scope",
-            "falsy-default-kw", "tuple-items-structure-class", "pep604-structure-first-nested", "typing-union-duplicate",
+PRIORITY = ["string-annotation-enclosing-scope",
+            "falsy-default-kw", "typing-union-duplicate",
             "typing-union-flattened"]
 
 CAUSES = {
-    "definition-error": ["string-annotation-enclosing-scope", "tuple-items-structure-class",
-                         "pep604-structure-first-nested", "falsy-default-kw"],
-    "field-dropped": ["quoted-under-future-import", "quoted-annotation-50"],
+    "definition-error": ["string-annotation-enclosing-scope", "falsy-default-kw"],
     "error-class-differs": ["typing-union-duplicate"],
 }
 
@@ -1691,7 +1705,7 @@ def oracle(case, impl, model):
     ref = impl["variants"][0]
     ref_feats = field_features(case, model, 0)
     for i, (v, iv, mv) in enumerate(zip(case["variants"], impl["variants"], model["variants"])):
-        if not all(documented(f) for f in v["fields"]):
+        if not all(documented(f) for f in v["fields"]) or v.get("undocumented"):
             continue
         feats = field_features(case, model, i)
         srcs = (json.dumps([field_source(f)[0] for f in v["fields"]]) + (" [future]" if v["future"] else "")
@@ -1729,7 +1743,7 @@ def oracle(case, impl, model):
                     fails.append((f"meaning-mismatch:{site(ffeats)}",
                                   f"{field_source(f)[0]}{' [future]' if v['future'] else ''}: documented meaning "
                                   f"{json.dumps(want, sort_keys=True)[:300]} but the class has {json.dumps(got, sort_keys=True)[:300]}"))
-                elif m["req"] != (nm in iv["cls"]["required"]):
+                elif v.get("required") is None and m["req"] != (nm in iv["cls"]["required"]):
                     fails.append((f"meaning-mismatch-required:{site(ffeats)}",
                                   f"{field_source(f)[0]}: documented required={m['req']}, class _required={iv['cls']['required']}"))
                 elif m["hasDflt"] != (nm in have_def) or (m["hasDflt"] and dump.canon(m["dflt"]) != dump.canon(have_def[nm])):
